@@ -69,6 +69,8 @@ def _dump_to(p):
 
 def _dump():
     p = os.environ.get("VERIF_REC_FILE")
+    if p and os.environ.get("PYTEST_XDIST_WORKER"):
+        p = p + "." + os.environ["PYTEST_XDIST_WORKER"]       # every xdist worker has its own log
     if p:
         try:
             with open(p, "w") as f:
